@@ -1123,6 +1123,14 @@ func (c *Ctx) carries(v ssa.Value, src map[ssa.Value]bool, depth int, seen map[s
 			}
 		}
 	case *ssa.Call:
+		if bi, ok := x.Call.Value.(*ssa.Builtin); ok && bi.Name() == "append" {
+			for _, a := range x.Call.Args {
+				if c.carries(a, src, depth+1, seen) {
+					return true
+				}
+			}
+			return false
+		}
 		return c.callCarries(x, -1, src, depth+1, seen)
 	}
 	return false
@@ -1174,6 +1182,10 @@ func (c *Ctx) callCarries(call *ssa.Call, index int, src map[ssa.Value]bool, dep
 
 // carrierRetained: reports stores of a carrier of the input (see carries) into package-level state.
 func (c *Ctx) carrierRetained(fn *ssa.Function, alias map[ssa.Value]bool) {
+	c.carrierRetainedAt(fn, alias, 0)
+}
+
+func (c *Ctx) carrierRetainedAt(fn *ssa.Function, alias map[ssa.Value]bool, depth int) {
 	fromGlobal := func(v ssa.Value) *ssa.Global {
 		for i := 0; i < 6; i++ {
 			switch y := v.(type) {
@@ -1201,8 +1213,8 @@ func (c *Ctx) carrierRetained(fn *ssa.Function, alias map[ssa.Value]bool) {
 			var vals []ssa.Value
 			switch x := in.(type) {
 			case *ssa.Store:
-				if _, isSlice := x.Val.Type().Underlying().(*types.Slice); isSlice {
-					continue // slices themselves: the retention rule below
+				if _, isSlice := x.Val.Type().Underlying().(*types.Slice); isSlice && alias[x.Val] {
+					continue // a slice of the input itself: the retention rule below
 				}
 				g, vals = rootGlobal(x.Addr), []ssa.Value{x.Val}
 			case *ssa.MapUpdate:
@@ -1211,6 +1223,19 @@ func (c *Ctx) carrierRetained(fn *ssa.Function, alias map[ssa.Value]bool) {
 				// (*sync.Map).Store / (*atomic.Value).Store on package-level state
 				if f := x.Call.StaticCallee(); f != nil && !inRepo(f) && (f.Name() == "Store" || f.Name() == "Swap" || f.Name() == "LoadOrStore" || f.Name() == "CompareAndSwap") && len(x.Call.Args) >= 2 {
 					g, vals = fromGlobal(x.Call.Args[0]), x.Call.Args[1:]
+				}
+				// a helper of the module that is handed a carrier (remember(key, v, err)): what it does with it
+				if f := c.StaticCallee(&x.Call); f != nil && inRepo(f) && depth < 3 {
+					gfn := origin(f)
+					inner := map[ssa.Value]bool{}
+					for ai, a := range x.Call.Args {
+						if ai < len(gfn.Params) && !alias[a] && c.carries(a, alias, 0, map[ssa.Value]bool{}) {
+							inner[gfn.Params[ai]] = true
+						}
+					}
+					if len(inner) > 0 {
+						c.carrierRetainedAt(gfn, inner, depth+1)
+					}
 				}
 			}
 			if g == nil {
